@@ -242,11 +242,23 @@ def run_busoff(spec, res):
     import os
     if not os.path.isfile(au.case(path)):
         path = "ieee14/ieee14_linetrip.xlsx"
-    ss = au.load(path)
+    ss = au.load(path, setup=False)
     nb = ss.Bus.n
     noff = int(rng.integers(1, 4))
     # never the slack bus alone matters; any bus may be switched off
     off = [ss.Bus.idx.v[int(i)] for i in rng.choice(nb, size=noff, replace=False)]
+    # devices of a second model of a group on the same buses (a switched shunt next to a fixed one, a PV unit next to the
+    # slack generator): a group holds several models and all of them are attached to the bus
+    rng2 = rng_for(spec.get("seed", 0), PROPERTY, 7, spec["index"])
+    if rng2.random() < 0.6:
+        vn = dict(zip(ss.Bus.idx.v, ss.Bus.Vn.v))
+        targets = list(off) if rng2.random() < 0.7 else [ss.Bus.idx.v[int(rng2.integers(0, nb))]]
+        for b in targets:
+            ss.add("ShuntSw", dict(bus=b, Vn=vn[b], Sn=100.0, gs="[0.0]", bs="[0.02]", ns="[1]"))
+            if rng2.random() < 0.5:
+                ss.add("Shunt", dict(bus=b, Vn=vn[b], Sn=100.0, g=0.0, b=0.01))
+            res.count("busoff_extra_models_in_group")
+    ss.setup()
     res.sig = "busoff:%s:%s" % (path, sorted(map(str, off)))
     before = {}
     for mname, m in ss.models.items():
